@@ -57,9 +57,10 @@ def symptoms_of(r: dict) -> list[tuple[str, str, dict]]:
 
 def run(chk: core.Check, cases: list[dict], aspects: set[str],
         on_result: Callable[[dict, dict], None] | None = None,
-        hashseeds: list[int] | None = None, skip_no_output: bool = False) -> dict:
+        hashseeds: list[int] | None = None, skip_no_output: bool = False,
+        worker: tuple[str, str] = ("vlib.lcase", "run_learn_case"), label: str = "") -> dict:
     """Execute cases, record evidence, raise violations for symptoms in `aspects`."""
-    results, notes = core.run_workers("vlib.lcase", "run_learn_case", cases,
+    results, notes = core.run_workers(worker[0], worker[1], cases,
                                       hashseeds=hashseeds, chunks_per_proc=4, timeout=3000)
     for n in notes:
         chk.note_inconclusive(n)
@@ -115,6 +116,9 @@ def run(chk: core.Check, cases: list[dict], aspects: set[str],
         if on_result:
             on_result(c, r)
     steps.sort()
+    if label:
+        chk.extra[label] = {"cases": len(results), "per_stratum": per_stratum, **agg}
+        return {"reach": reach, "results": results}
     chk.extra.update({
         "distinct_learned_diagrams": len(out_forms),
         "median_steps": steps[len(steps) // 2] if steps else 0,
@@ -132,8 +136,10 @@ def replay_case(prop: str, path: str, aspects: set[str]) -> int:
         data = json.load(fh)
     c = data["case"]["case"]
     hs = data["case"].get("hashseed") or 0
-    results, notes = core.run_workers("vlib.lcase", "run_learn_case", [c], nproc=1,
-                                      hashseeds=[hs])
+    w = ("vlib.present", "run_cli_learn_case") if c.get("mode") else ("vlib.lcase", "run_learn_case")
+    if c.get("mode"):
+        c = dict(c, work_dir=core.work_dir())
+    results, notes = core.run_workers(w[0], w[1], [c], nproc=1, hashseeds=[hs])
     bad = False
     for r in results:
         if r.get("status") != "ok":
